@@ -52,9 +52,9 @@ type replFut struct {
 	start time.Time
 }
 
-func (f *replFut) Error() error                         { return nil }
-func (f *replFut) Start() time.Time                     { return f.start }
-func (f *replFut) Request() *raft.AppendEntriesRequest  { return f.req }
+func (f *replFut) Error() error                          { return nil }
+func (f *replFut) Start() time.Time                      { return f.start }
+func (f *replFut) Request() *raft.AppendEntriesRequest   { return f.req }
 func (f *replFut) Response() *raft.AppendEntriesResponse { return f.resp }
 
 func (p *replPipe) AppendEntries(req *raft.AppendEntriesRequest, resp *raft.AppendEntriesResponse) (raft.AppendFuture, error) {
